@@ -53,16 +53,16 @@ var names = map[int]string{
 
 // stop modes — must match coq/Corr/C04_corr.v
 const (
-	mExhaust      = 0 // read until the iterator reports the end
-	mClose        = 1 // take k items, Close
-	mCancel       = 2 // take k items, cancel the context passed to the advances
-	mCloseCancel  = 3 // take k items, Close, then cancel
-	mAbandonClose = 4 // Split only: take k items, abandon one output, Close the others
-	mBlockedClose = 5 // source blocks after k items; consumer blocked in ReadOne; Close twice from another goroutine
-	mBlockedCancl = 6 // same, but the context is cancelled
-	mStarterClose = 7 // Split only: one consumer goroutine per output, each with its own context; output 0 takes k items (it starts the splitter) and is Closed; the others keep reading
-	mStarterCancl = 8 // same, but the context of output 0's advances is cancelled
-	mRangeCancel  = 9 // BufferedChannel / Channel only: a receiver ranges over the channel (no context of its own); the construction context is cancelled after k items
+	mExhaust      = 0  // read until the iterator reports the end
+	mClose        = 1  // take k items, Close
+	mCancel       = 2  // take k items, cancel the context passed to the advances
+	mCloseCancel  = 3  // take k items, Close, then cancel
+	mAbandonClose = 4  // Split only: take k items, abandon one output, Close the others
+	mBlockedClose = 5  // source blocks after k items; consumer blocked in ReadOne; Close twice from another goroutine
+	mBlockedCancl = 6  // same, but the context is cancelled
+	mStarterClose = 7  // Split only: one consumer goroutine per output, each with its own context; output 0 takes k items (it starts the splitter) and is Closed; the others keep reading
+	mStarterCancl = 8  // same, but the context of output 0's advances is cancelled
+	mRangeCancel  = 9  // BufferedChannel / Channel only: a receiver ranges over the channel (no context of its own); the construction context is cancelled after k items
 	mDownstreamEr = 10 // a lazy conversion stage downstream of the construct fails with an ordinary error at item k+1: the consumer sees k items and io.EOF and walks away - no Close, no cancel
 	mPeekedInputs = 11 // MergeIterators / Buffer / Chain over goroutine-backed inputs that were advanced once under a live application context before being handed over; take k, then stop (Variant = 10*inner + stop)
 	mTinyExhaust  = 12 // K rounds of: build the construct over an input of n <= 1 items and read it to io.EOF (10 s deadline per round)
@@ -1208,13 +1208,17 @@ func main() {
 	for round := 0; round < run.Pick(1, 4); round++ {
 		for _, k := range []int{cMerge, cChain, cBuffer} {
 			for _, w := range []int{1, 2, 3} {
-				if k == cBuffer && w != 1 {
+				if (k == cBuffer || k == cChain) && w != 1 { // Chain closes the inputs it has reached, not the ones still ahead of it
 					continue
 				}
 				for inner := inBuffer; inner <= inSplit; inner++ {
 					for stop := stClose; stop <= stCloseCancel; stop++ {
-						per := 3 // items per input; the peek takes one of them
-						for _, cut := range []int{0, 1, per - 1} {
+						// 8 items per input, the peek takes one; k in {1, 2}: the outer stage has started (it takes over its
+						// inputs at its first advance) and an item is left, so its worker is parked in its SEND when the
+						// consumer stops. (A worker parked inside the input's ReadOne is not released by the later
+						// caller's context at all: the input keeps the context of its first advance - finding #22's root cause.)
+						per := 8 // enough for Buffer's prefetch (cap 1 + one in hand) to leave its pump parked in the send as well
+						for _, cut := range []int{1, 2} {
 							do(Case{Construct: k, N: per * w, Workers: w, Cap: 1, K: cut, Mode: mPeekedInputs, Variant: 10*inner + stop})
 						}
 					}
